@@ -38,9 +38,15 @@ if os.path.isdir(_d):
             CHECKS[f[:-5]] = json.load(open(os.path.join(_d, f)))
 
 
+# properties whose check is finished and registered
+ENABLED = [l.strip() for l in open(os.path.join(VERIF, "pygen", "enabled.txt")) if l.strip() and not l.startswith("#")]
+
+
 def main():
     checks = []
     for pid in sorted(CHECKS):
+        if pid not in ENABLED:
+            continue
         c = CHECKS[pid]
         checks.append({
             "property_id": pid,
